@@ -1,10 +1,81 @@
-/- Line-protocol driver for C13 (stub until the property's models exist). -/
+/-
+  Line-protocol driver for C13 (retry / reservation loops on outcome scripts).
+
+    chunk <budget> <res0> <letters> <tail>            get_sdr_chunk_helper
+    clear <budget> <res|-> <letters> <tail>           clear_repository_helper
+    clearloop <ctrl> <budget> <res0> <letters> <tail> _clear_repository
+    send <asShipped:1|0> <budget> <letters> <tail>    Ipmi.send_message
+    consts                                            constants read from the source
+
+  letters ::= - | L(,L)*      L ::= C | P | R | T | U | B | O<code>
+  answer  ::= <outcome tag> <trace>      trace ::= - | E(,E)*
+  E ::= r<granted> | c<ctrl>:<res>:<L> | k<res>:<L> | x<L>
+-/
 import PyIpmi.Base.Proto
-open PyIpmi.Proto
+import PyIpmi.Model.Retry
+import PyIpmi.Gen.Loops11
+open PyIpmi PyIpmi.Proto PyIpmi.Model.Retry
+
+def K13 : Consts := PyIpmi.Gen.Loops11.consts
+
+def parseLetter (s : String) : Option Letter :=
+  if s == "C" then some .completed
+  else if s == "P" then some .inProgress
+  else if s == "R" then some .resCancelled
+  else if s == "T" then some .timeout
+  else if s == "U" then some .respUnavailable
+  else if s == "B" then some .nodeBusy
+  else if s.startsWith "O" then (s.drop 1).toNat?.map .other
+  else none
+
+def parseLetters (s : String) : Option (List Letter) :=
+  if s == "-" then some [] else (s.splitOn ",").mapM parseLetter
+
+def showLetter : Letter → String
+  | .completed => "C"
+  | .inProgress => "P"
+  | .resCancelled => "R"
+  | .timeout => "T"
+  | .respUnavailable => "U"
+  | .nodeBusy => "B"
+  | .other c => s!"O{c}"
+
+def showEv : Ev → String
+  | .reserve g => s!"r{g}"
+  | .clear c r l => s!"c{c}:{r}:{showLetter l}"
+  | .chunk r l => s!"k{r}:{showLetter l}"
+  | .xfer l => s!"x{showLetter l}"
+
+def showTrace (t : List Ev) : String :=
+  if t.isEmpty then "-" else ",".intercalate (t.map showEv)
+
+def answer {α : Type} (p : Env × Outcome α) : String :=
+  s!"{p.2.tag} {showTrace p.1.trace}"
 
 def handleC13 (line : String) : String :=
   match tokens line with
   | ["ping"] => "pong"
+  | ["consts"] =>
+    let k := K13
+    " ".intercalate ([k.ccOk, k.chunkRetryDefault, k.chunkRenew, k.chunkRetry1, k.chunkRetry2,
+      k.clearRetryDefault, k.clearRenew, k.ctrlInitiate, k.ctrlStatus, k.statusInProgress,
+      k.statusCompleted, k.sendRetryDefault, k.sendBusy].map toString)
+  | ["chunk", b, r, ls, t] =>
+    match b.toNat?, r.toNat?, parseLetters ls, parseLetter t with
+    | some b, some r, some ls, some t => answer (runChunk K13 b r ⟨ls, t⟩)
+    | _, _, _, _ => "bad-op"
+  | ["clear", b, r, ls, t] =>
+    match b.toNat?, (if r == "-" then some none else r.toNat?.map some), parseLetters ls, parseLetter t with
+    | some b, some rv, some ls, some t => answer (runClear K13 b rv ⟨ls, t⟩)
+    | _, _, _, _ => "bad-op"
+  | ["clearloop", c, b, r, ls, t] =>
+    match c.toNat?, b.toNat?, r.toNat?, parseLetters ls, parseLetter t with
+    | some c, some b, some r, some ls, some t => answer (runClearLoop K13 c b r ⟨ls, t⟩)
+    | _, _, _, _, _ => "bad-op"
+  | ["send", v, b, ls, t] =>
+    match v.toNat?, b.toNat?, parseLetters ls, parseLetter t with
+    | some v, some b, some ls, some t => answer (runSend K13 ⟨v != 0⟩ b ⟨ls, t⟩)
+    | _, _, _, _ => "bad-op"
   | _ => "bad-op"
 
 def main : IO Unit := do
